@@ -592,6 +592,7 @@ def execute(program):
 
     l2t = None
     dirspec, strict = None, True
+    env_touched = False
     fault = None
     breaches = []
     try:
@@ -637,6 +638,7 @@ def execute(program):
             if kind == 'setenv':
                 import os as _os
                 _os.environ[op[1]] = op[2]           # this process is a throw-away child
+                env_touched = True                   # which file a name means may now legitimately differ
                 stats.inc('op:setenv-' + op[1])
                 trace.append(['setenv', op[1]])
                 continue
@@ -786,7 +788,7 @@ def execute(program):
                 stats.inc('probe:exception-' + type(exc).__name__)
             # ---- oracle 2: availability (fault-free batch only, unambiguous expectations only)
             if batch == 'plain' and not had_fault and via == 'rif' and expect is not None \
-               and expect.kind == 'f' and dirnode is not None:
+               and expect.kind == 'f' and dirnode is not None and not env_touched:
                 if (not strict) or res.inside(expect, dirnode):
                     stats.inc('availability-expectations')
                     want_text = None
